@@ -256,6 +256,16 @@ namespace plan
       {
         // each parameter is given with probability ~1/2 (mask bit); value is a lin over the scope
         Lin v = parse_lin(op, pos, sc, 0);
+        if (m.param_fixed(pred, names[i]))
+        { // a factor of a product in the rule: always given, always a (small) constant
+          v.t.clear();
+          v.k = mpq_class(modn(v.k.get_num().get_si(), 5) - 1);
+          Arg a;
+          a.param = names[i];
+          a.val = v;
+          args.push_back(a);
+          continue;
+        }
         if (!((mask >> i) & 1))
           continue;
         const bool temporal = names[i] == "start" || names[i] == "end" || names[i] == "duration" || names[i] == "at";
@@ -872,6 +882,56 @@ namespace plan
       it->b = b;
       m.preds[p].body.push_back(it);
     }
+    else if (n == "r_mul")
+    { // `z == a * y` in the rule of a predicate with a parameter a: linear only because the goal fixes a (a constant argument);
+      // the product is evaluated by the reader from the *current* value of the factor whose bounds coincide
+      if (m.preds.empty() || m.unit != 0)
+        return;
+      std::vector<int> ps;
+      for (size_t i = 0; i < m.preds.size(); ++i)
+        if (!m.preds[i].rparams.empty())
+          ps.push_back(static_cast<int>(i));
+      if (ps.empty())
+        return;
+      int p = ps[modn(op.arg(0), ps.size())];
+      // only while nothing has been stated on this predicate (or one extending it) yet: later goals, facts and sub-goals will fix the factor
+      for (auto &st : m.stmts)
+        if ((st.k == Stmt::FORMULA || st.k == Stmt::DISJ) && st.item)
+        {
+          if (st.k == Stmt::FORMULA && st.item->pred >= 0 && m.pred_extends(st.item->pred, p))
+            return;
+          for (auto &br : st.item->branches)
+            for (auto &bi : br)
+              if (bi->k == BodyItem::SUBGOAL && bi->pred >= 0 && m.pred_extends(bi->pred, p))
+                return;
+        }
+      for (auto &q : m.preds)
+        for (auto &bi : q.body)
+          if (bi->k == BodyItem::SUBGOAL && bi->pred >= 0 && m.pred_extends(bi->pred, p))
+            return;
+      Scope &sc = scope_of_pred(p);
+      std::vector<Path> others;
+      for (auto &x : sc.nums)
+        if (x.size() == 1 && std::find(m.preds[p].rparams.begin(), m.preds[p].rparams.end(), x[0]) == m.preds[p].rparams.end() && x[0].find('*') == std::string::npos)
+          others.push_back(x);
+      if (others.size() < 2)
+        return;
+      const std::string a = m.preds[p].rparams[modn(op.arg(1), m.preds[p].rparams.size())];
+      const Path y = others[modn(op.arg(2), others.size())], z = others[modn(op.arg(3), others.size())];
+      if (y == z)
+        return;
+      auto b = std::make_shared<B>();
+      b->k = B::REL;
+      b->rel = static_cast<int>(modn(op.arg(4), 3)) == 0 ? EQ : (modn(op.arg(4), 3) == 1 ? LEQ : GEQ);
+      b->l.t.push_back({mpq_class(1), z});
+      b->r.t.push_back({mpq_class(1), Path{a + "*" + y[0]}});
+      auto it = std::make_shared<BodyItem>();
+      it->k = BodyItem::ASSERT;
+      it->b = b;
+      m.preds[p].body.push_back(it);
+      if (!m.param_fixed(p, a))
+        m.preds[p].fixed_params.push_back(a);
+    }
     else if (n == "r_logic")
     { // a disjunction of two relations in a rule body, over the rule's parameters and the global variables
       if (m.preds.empty() || m.unit != 0)
@@ -958,6 +1018,18 @@ namespace plan
       }
       pos++;
       it->args = parse_args(op, pos, p, top);
+      // a parameter that is a factor of a product in the rule is fixed either by a constant argument or, every other time, by
+      // a constraint stated right after the formula (then it is a variable whose bounds coincide when the rule is applied)
+      std::vector<Arg> fixed_after;
+      if (!it->is_fact && (m.n_formulas % 2) == 0)
+        for (size_t i = 0; i < it->args.size();)
+          if (m.param_fixed(p, it->args[i].param))
+          {
+            fixed_after.push_back(it->args[i]);
+            it->args.erase(it->args.begin() + static_cast<long>(i));
+          }
+          else
+            ++i;
       for (auto &a : it->args)
         mention(a.val);
       for (auto &sp : it->scope)
@@ -968,6 +1040,15 @@ namespace plan
       s.text = std::string(it->is_fact ? "fact " : "goal ") + it->local + " = new " + (it->scope.empty() ? "" : ptext(it->scope) + ".") + m.preds[p].name + "(" + args_text(it->args) + ");";
       m.stmts.push_back(s);
       ++order;
+      for (auto &a : fixed_after)
+      {
+        auto b = std::make_shared<B>();
+        b->k = B::REL;
+        b->rel = EQ;
+        b->l.t.push_back({mpq_class(1), Path{it->local, a.param}});
+        b->r.k = a.val.k;
+        assert_stmt(b);
+      }
       for (auto &a : m.preds[p].rparams)
         top.nums.push_back({it->local, a});
       // the temporal parameters of the atom can be constrained by later statements as well (`g0.start >= 2.0;`, `g1.end <= g0.start;`)
